@@ -96,27 +96,8 @@ def gen_case(rng, want_empty_title=None):
         place = rng.choice(["para", "para", "list", "quote", "note", "table"])
         items = []
         for _ in range(n):
-            r = rng.random()
-            if r < 0.45 and targets:
-                frag = rng.choice(targets)["name"]
-            elif r < 0.7 and headings:
-                h = rng.choice(headings)
-                frag = h["slug_base"] + rng.choice(["", "", "-1"])
-            elif r < 0.85:
-                frag = rng.choice(names_pool)          # as written: possibly a case variant
-            else:
-                frag = rng.choice(MISSING)
-            form = rng.choice(["text", "empty", "auto"])
-            if form == "auto" and (" " in frag or frag == ""):
-                form = "empty"
             lm = marker("lk")
-            if form == "text":
-                src = f"[{lm}](<#{frag}>)" if " " in frag else f"[{lm}](#{frag})"
-            elif form == "empty":
-                src = f"[](<#{frag}>)" if " " in frag else f"[](#{frag})"
-            else:
-                src = f"<project:#{frag}>"
-            items.append({"frag": frag, "form": form, "text": lm if form == "text" else None, "src": src})
+            items.append({"id": lm, "src": "@@" + lm + "@@"})
         if place == "table":
             row = "| " + " | ".join(i["src"] for i in items) + " |"
             start = emit(["| " + " | ".join("h" for _ in items) + " |", "|" + "---|" * len(items), row])
@@ -168,6 +149,36 @@ def gen_case(rng, want_empty_title=None):
             s = s + "-1"
         slugs[s] = h
         h["slug"] = s
+    text = "\n".join(lines) + "\n"
+    valid = sorted(explicit)
+    dups = sorted(n for n, c in count.items() if c > 1)
+    variants = sorted({t_ for t_ in (n.upper() for n in valid) if t_ not in explicit and t_ not in slugs}
+                      | {n for n in names_pool if norm(n) != n and n not in explicit and n not in slugs})
+    for l in links:
+        r = rng.random()
+        if r < 0.35 and valid:
+            frag = rng.choice(valid)
+        elif r < 0.65 and slugs:
+            frag = rng.choice(sorted(slugs))
+        elif r < 0.75 and variants:
+            frag = rng.choice(variants)
+        elif r < 0.82 and dups:
+            frag = rng.choice(dups)
+        elif r < 0.9 and headings:
+            frag = rng.choice(headings)["slug_base"] + rng.choice(["", "-1", "-2"])
+        else:
+            frag = rng.choice(MISSING)
+        form = rng.choice(["text", "empty", "auto"])
+        if form == "auto" and (" " in frag or frag == ""):
+            form = "empty"
+        if form == "text":
+            src = f"[{l['id']}](<#{frag}>)" if " " in frag else f"[{l['id']}](#{frag})"
+        elif form == "empty":
+            src = f"[](<#{frag}>)" if " " in frag else f"[](#{frag})"
+        else:
+            src = f"<project:#{frag}>"
+        text = text.replace(l["src"], src)
+        l.update({"frag": frag, "form": form, "text": l["id"] if form == "text" else None, "src": src})
     for l in links:
         f = l["frag"]
         if f in explicit:
@@ -182,5 +193,5 @@ def gen_case(rng, want_empty_title=None):
             l["expect"] = {"hit": "missing"}
     settings = {"myst_enable_extensions": ["attrs_block", "attrs_inline"], "myst_heading_anchors": heading_anchors,
                 "doctitle_xform": rng.random() < 0.5}
-    return {"kind": "doc", "text": "\n".join(lines) + "\n", "settings": settings, "links": links,
+    return {"kind": "doc", "text": text, "settings": settings, "links": links,
             "dup_names": sorted(n for n, c in count.items() if c > 1)}
